@@ -238,7 +238,20 @@ func await(s *bfd.Session, d time.Duration) (bfdEv, bool) {
 func probePackets(e *Env) []*APkt {
 	var out []*APkt
 	okv := AHop{Vp: true, Vu: true}
+	sib := 0 // an interface owned by a sibling router (traffic handed over by that sibling claims it)
 	for _, i := range e.Cfg.Ifs {
+		if i.Sc == "sib" && sib == 0 {
+			sib = i.ID
+		}
+	}
+	for _, i := range e.Cfg.Ifs {
+		if i.Sc == "ext" && sib != 0 { // AS transit out: handed over by the sibling, out of an own interface
+			h := okv
+			h.In, h.Eg = sib, i.ID
+			out = append(out, &APkt{Kind: "scion", Via: sib, Src: "F", Dst: "F", Fault: "none", L4: "udp",
+				Seg: []int{3}, Hf: 1, Infos: []AInfo{{Cons: true}},
+				Hops: []AHop{{In: 999, Eg: 999}, h, {In: 999, Eg: 999}}, Ep: AEp{true, true, true}})
+		}
 		if i.Sc == "ext" { // from a local host straight out
 			h := okv
 			h.Eg = i.ID
